@@ -104,6 +104,29 @@ def sheared(pp, spec, A):
     return dict(spec, nodes=np.round(nodes, 12).tolist(), pert="affine")
 
 
+def _rot(axis, angle):
+    """rotation matrix (Rodrigues formula)"""
+    axis = np.asarray(axis, dtype=float)
+    axis = axis / np.linalg.norm(axis)
+    W = np.array([[0, -axis[2], axis[1]], [axis[2], 0, -axis[0]], [-axis[1], axis[0], 0]])
+    return np.eye(3) + np.sin(angle) * W + (1 - np.cos(angle)) * W @ W
+
+
+def embedded(pp, spec, R):
+    """the 2-D grid ``spec`` (unperturbed / perturbed / affine, built in the xy-plane) rigidly rotated out of the xy-plane:
+    a planar 2-D grid embedded in 3-D.  ``R`` is stored so that the oracle knows the two tangent directions R e_x, R e_y."""
+    g0 = build_grid(pp, spec)
+    R = np.asarray(R, dtype=float)
+    return dict(spec, nodes=np.round(R @ g0.nodes, 12).tolist(), R=np.round(R, 15).tolist())
+
+
+def embedding_rotations(quick):
+    rots = [_rot([1, 1, -1], -np.pi / 4), _rot([0.2, -1, 0.5], 1.1)]
+    if not quick:
+        rots += [_rot([0, 1, 0], np.pi / 2), _rot([1.0, -0.6, 0.3], 2.5)]
+    return rots
+
+
 def grid_specs(pp, rng, quick):
     base2 = [("cart", [2, 2], [2.0, 2.0]), ("cart", [3, 2], [1.5, 1.0]), ("cart", [3, 3], [3.0, 1.5]),
              ("tri", [2, 2], [1.0, 1.0]), ("tri", [3, 2], [3.0, 1.0])]
@@ -123,7 +146,17 @@ def grid_specs(pp, rng, quick):
             out.append(sheared(pp, s, [[1, 0.3, 0.1], [0, 1, 0.2], [0.1, 0, 1.2]]))
         elif not quick:
             out.append(sheared(pp, s, [[1, 0.4, 0], [0.2, 1.1, 0], [0, 0, 1]]))
-    return out
+    # 2-D grids that do not lie in the xy-plane (Mpfa rotates grid and permeability into the grid plane internally)
+    rots = embedding_rotations(quick)
+    flat2 = [s for s in out if len(s["n"]) == 2]
+    emb = []
+    for i, s in enumerate(flat2):
+        if quick:
+            if i % 4 in (0, 3):  # alternately an unperturbed and a perturbed grid, alternating rotation
+                emb.append(embedded(pp, s, rots[len(emb) % 2]))
+        else:  # every 2-D grid variant, cycling through the rotations
+            emb.append(embedded(pp, s, rots[i % len(rots)]))
+    return out + emb
 
 
 # ----------------------------------------------------------------------------- tensors and boundary layouts
@@ -141,7 +174,18 @@ def tensor_family(dim):
     return [("iso", np.diag([2.5, 2.5, 2.5])), ("diag", np.diag([1.0, 10.0, 0.1])), ("full", full)]
 
 
+def embedded_tensor_family(R, quick):
+    """constant SPD 3x3 tensors in ambient coordinates for a 2-D grid embedded by the rotation R: the in-plane families of
+    tensor_family(2) rotated with the grid (R K R^T; unit permeability normal to the plane), and a full SPD tensor that is not
+    aligned with the grid plane at all."""
+    R = np.asarray(R, dtype=float)
+    fam = [(name + "-rotated", R @ K @ R.T) for name, K in tensor_family(2) if not (quick and name == "iso")]
+    fam.append(("ambient-full", dict(tensor_family(3))["full"]))
+    return [(n, 0.5 * (K + K.T)) for n, K in fam]
+
+
 def make_tensor(pp, K, nc, dim):
+    """dim = 2: in-plane entries only (grid in the xy-plane); dim = 3 (also used for embedded 2-D grids): all six entries"""
     o = np.ones(nc)
     K = np.asarray(K, dtype=float)
     if dim == 2:
@@ -179,7 +223,8 @@ def evaluate(pp, spec, K, layout):
     is_dir_b = np.array([c == "d" for c in layout])
     bc = pp.BoundaryCondition(g, bf, ["dir" if d else "neu" for d in is_dir_b])
     K = np.asarray(K, dtype=float)
-    data = pp.initialize_data({}, KW, {"bc": bc, "second_order_tensor": make_tensor(pp, K, g.num_cells, dim)})
+    emb = spec.get("R") is not None  # 2-D grid embedded in 3-D: K is the full 3x3 tensor in ambient coordinates
+    data = pp.initialize_data({}, KW, {"bc": bc, "second_order_tensor": make_tensor(pp, K, g.num_cells, 3 if emb else dim)})
     try:
         with warnings.catch_warnings():
             warnings.simplefilter("ignore")
@@ -197,13 +242,16 @@ def evaluate(pp, spec, K, layout):
     is_dir[bf[is_dir_b]] = True
     neu = bf[~is_dir_b]
     sgn_neu = sgn[~is_dir_b]
-    L = np.ptp(g.nodes[:dim], axis=1).max()
+    L = np.linalg.norm(g.nodes, axis=0).max() if emb else np.ptp(g.nodes[:dim], axis=1).max()
     cf = g.cell_faces.tocoo()
     hmin = np.linalg.norm(xf[:, cf.row] - xc[:, cf.col], axis=0).min()
-    tscale = np.abs(K[:dim, :dim]).max() * g.face_areas.max() / hmin
+    tscale = (np.abs(K).max() if emb else np.abs(K[:dim, :dim]).max()) * g.face_areas.max() / hmin
 
     bad = []
-    basis = [(1.0, np.zeros(3))] + [(0.0, np.eye(3)[i]) for i in range(dim)]
+    # gradients: the coordinate directions of the grid; for an embedded grid the two tangent directions R e_x, R e_y (a gradient
+    # component normal to the plane only adds a constant on the grid, which the constant basis element covers)
+    T = np.asarray(spec["R"], dtype=float).T if emb else np.eye(3)
+    basis = [(1.0, np.zeros(3))] + [(0.0, T[i]) for i in range(dim)]
     for a0, a in basis:
         p = lambda x: a0 + a @ x  # noqa: E731
         p_c = p(xc)
@@ -233,7 +281,8 @@ def evaluate(pp, spec, K, layout):
 
 def _signature(spec, tname, lname):
     pert = "regular" if spec["pert"] == 0 else ("affine" if spec["pert"] == "affine" else "perturbed")
-    return f"{len(spec['n'])}d {spec['kind']} {pert} bc={lname}"
+    emb = " embedded in 3-D" if spec.get("R") is not None else ""
+    return f"{len(spec['n'])}d {spec['kind']} {pert}{emb} bc={lname}"
 
 
 def run(rep):
@@ -268,13 +317,17 @@ def run(rep):
                 continue
             nb = g.get_all_boundary_faces().size
             big = g.num_cells > 30
-            for tname, K in tensor_family(g.dim):
-                for lname, layout in bc_layouts(rng, nb, (1 if big else 2) if quick else 6):
+            emb = spec.get("R") is not None
+            tensors = embedded_tensor_family(spec["R"], quick) if emb else tensor_family(g.dim)
+            n_random = ((1 if big or emb else 2) if quick else (3 if emb else 6))
+            for tname, K in tensors:
+                for lname, layout in bc_layouts(rng, nb, n_random):
                     key = (spec["kind"], tuple(spec["n"]), str(spec["pert"]), hash(str(spec["nodes"])), tname, layout)
-                    trivial = spec["kind"] == "cart" and spec["pert"] == 0 and tname == "iso" and lname == "all-dir"
+                    trivial = spec["kind"] == "cart" and spec["pert"] == 0 and tname == "iso" and lname == "all-dir" and not emb
                     inputs = {"grid": spec, "K": np.asarray(K).tolist(), "layout": layout}
                     sw.case(key, nontrivial=not trivial,
-                            sample={"grid": {k: v for k, v in spec.items() if k != "nodes"}, "K": tname, "layout": layout})
+                            sample={"grid": {k: v for k, v in spec.items() if k not in ("nodes", "R")}, "K": tname, "layout": layout,
+                                    "embedded": emb})
                     for ob, detail in evaluate(pp, spec, K, layout):
                         rep.violation(ob, _signature(spec, tname, lname), inputs=inputs, detail=detail, confirmed=True)
 
